@@ -37,7 +37,8 @@ def layout_map(ctx, report, folder):
     org = lay.attrs.get("origin")
     if not isinstance(org, SObj):
         raise AnalysisError("_get_layout_from_tuple: no origin")
-    row, col = "$position_tuple[0]", "$position_tuple[1]"
+    p0 = fn.params[0] if fn.params else "position_tuple"         # (the parameter by position)
+    row, col = f"${p0}[0]", f"${p0}[1]"
     sa = cea608.SAFE_AREA
     xs = Fraction(sa["x1"] - sa["x0"], cea608.SCREEN_COLUMNS)
     ys = Fraction(sa["y1"] - sa["y0"], cea608.SCREEN_ROWS)
